@@ -195,7 +195,21 @@ theorem stepDisp2_K {a : ACfg} {s : St} (ib : InvB2 a s) (is : InvS a s)
 macro "ksolve" : tactic => `(tactic|
   (refine ⟨?_, ?_, ?_, ?_, ?_, ?_, ?_, ?_, ?_, ?_, ?_, ?_, ?_, ?_⟩ <;>
     simp only [St.finish2, St.emit2, St.setA, St.setP, St.spawn2] <;>
-    grind [midStage, lateStage, alive2, allowed2]))
+    first
+      | grind [midStage, lateStage, alive2]
+      | grind [midStage, lateStage, alive2, allowed2]))
+
+theorem allowed2_D2 {t : ATid} {p : AProg} (h : allowed2 t p = true)
+    (hp : p = .dispLoop ∨ (∃ v k, p = .handler v k) ∨ (∃ v, p = .handlerClose v) ∨ (∃ v k, p = .handlerCC v k) ∨
+      (∃ v, p = .cleanupClose v)) : t = .D2 := by
+  rcases hp with rfl | ⟨v, k, rfl⟩ | ⟨v, rfl⟩ | ⟨v, k, rfl⟩ | ⟨v, rfl⟩ <;> cases t <;> simp_all [allowed2]
+
+theorem allowed2_V2 {t : ATid} (h : allowed2 t .vget = true) : t = .V2 := by
+  cases t <;> simp_all [allowed2]
+
+theorem allowed2_W {t : ATid} {p : AProg} {u : Nat} (h : allowed2 t p = true)
+    (hp : p = .recvWait u ∨ p = .closeWait u) : t = .W u := by
+  rcases hp with rfl | rfl <;> cases t <;> simp_all [allowed2]
 
 theorem stepRun2_K {a : ACfg} {s : St} (ib : InvB2 a s) (is : InvS a s) (t : ATid) :
     InvB2 a (stepRun2 a s t) ∧ InvS a (stepRun2 a s t) := by
@@ -207,17 +221,24 @@ theorem stepRun2_K {a : ACfg} {s : St} (ib : InvB2 a s) (is : InvS a s) (t : ATi
   split
   · -- cancelled: `CancelledError` is delivered
     rename_i hst
+    have hty := is0.ty t (by rw [hst]; rfl)
     split
     · rename_i v k hp
+      rw [hp] at hty
+      obtain rfl := allowed2_D2 hty (Or.inr (Or.inl ⟨v, k, rfl⟩))
       refine ⟨InvB2.of_core (s := s0.emit2 (.msgAbandon v)) rfl (ib0.emit2 rfl), ?_⟩
       obtain ⟨nb, we, wv, ty, wq, d2, cc, hc', can, v2, dn, vn, da, vs⟩ := is0
       ksolve
     · rename_i v hp
+      rw [hp] at hty
+      obtain rfl := allowed2_D2 hty (Or.inr (Or.inr (Or.inl ⟨v, rfl⟩)))
       refine ⟨InvB2.of_core (s := (s0.emit2 (.closeRet (.handler v) .cancelled)).emit2 (.msgAbandon v)) rfl
         ((ib0.emit2 rfl).emit2 rfl), ?_⟩
       obtain ⟨nb, we, wv, ty, wq, d2, cc, hc', can, v2, dn, vn, da, vs⟩ := is0
       ksolve
     · rename_i v k hp
+      rw [hp] at hty
+      obtain rfl := allowed2_D2 hty (Or.inr (Or.inr (Or.inr (Or.inl ⟨v, k, rfl⟩))))
       split
       · refine ⟨InvB2.of_core (s := (s0.emit2 (.closeRet (.handler v) .ok)).emit2 (.msgAbandon v)) rfl
           ((ib0.emit2 rfl).emit2 rfl), ?_⟩
@@ -225,28 +246,28 @@ theorem stepRun2_K {a : ACfg} {s : St} (ib : InvB2 a s) (is : InvS a s) (t : ATi
         ksolve
       · rename_i hg
         simp only [Bool.or_eq_true, not_or, Bool.not_eq_true, Option.isSome_eq_false_iff, Option.isNone_iff_eq_none] at hg
-        have htD : t = .D2 := by
-          have := is0.ty t (by rw [hst]; rfl)
-          rw [hp] at this
-          cases t <;> simp_all [allowed2]
-        subst htD
         exact startClose_K ib0 is0 _ _ hg.1 hg.2 (Or.inr (Or.inl ⟨rfl, hst, v, rfl⟩))
     · rename_i v hp
+      rw [hp] at hty
+      obtain rfl := allowed2_D2 hty (Or.inr (Or.inr (Or.inr (Or.inr ⟨v, rfl⟩))))
       refine ⟨InvB2.of_core (s := (s0.emit2 (.closeRet (.handler v) .cancelled)).emit2 (.msgAbandon v)) rfl
         ((ib0.emit2 rfl).emit2 rfl), ?_⟩
       obtain ⟨nb, we, wv, ty, wq, d2, cc, hc', can, v2, dn, vn, da, vs⟩ := is0
       ksolve
     · rename_i u hp
+      rw [hp] at hty
+      obtain rfl := allowed2_W hty (Or.inl rfl)
       have ib1 := InvB2.of_core (s' := { s0 with vres2 := none, rcv2Busy := false, gone2 := s0.gone2 ++ s0.vres2.toList.map (fun v => (v, false)) }) (s := s0) rfl ib0
-      have is1 := InvS.of_core (s' := { s0 with vres2 := none, rcv2Busy := false, gone2 := s0.gone2 ++ s0.vres2.toList.map (fun v => (v, false)) }) (s := s0) rfl is0
       split
-      · refine ⟨InvB2.of_core (s := _) rfl (ib1.emit2 (o := .ret u .eoq) rfl), ?_⟩
+      · refine ⟨InvB2.of_core (s := ({ s0 with vres2 := none, rcv2Busy := false, gone2 := s0.gone2 ++ s0.vres2.toList.map (fun v => (v, false)) } : St).emit2 (.ret u .eoq)) rfl (ib1.emit2 rfl), ?_⟩
         obtain ⟨nb, we, wv, ty, wq, d2, cc, hc', can, v2, dn, vn, da, vs⟩ := is0
         ksolve
-      · refine ⟨InvB2.of_core (s := _) rfl (ib1.emit2 (o := .ret u .cancelled) rfl), ?_⟩
+      · refine ⟨InvB2.of_core (s := ({ s0 with vres2 := none, rcv2Busy := false, gone2 := s0.gone2 ++ s0.vres2.toList.map (fun v => (v, false)) } : St).emit2 (.ret u .cancelled)) rfl (ib1.emit2 rfl), ?_⟩
         obtain ⟨nb, we, wv, ty, wq, d2, cc, hc', can, v2, dn, vn, da, vs⟩ := is0
         ksolve
     · rename_i u hp
+      rw [hp] at hty
+      obtain rfl := allowed2_W hty (Or.inr rfl)
       refine ⟨InvB2.of_core (s := s0.emit2 (.closeRet (.user u) .cancelled)) rfl (ib0.emit2 rfl), ?_⟩
       obtain ⟨nb, we, wv, ty, wq, d2, cc, hc', can, v2, dn, vn, da, vs⟩ := is0
       ksolve
@@ -255,6 +276,7 @@ theorem stepRun2_K {a : ACfg} {s : St} (ib : InvB2 a s) (is : InvS a s) (t : ATi
       ksolve
   · -- ready
     rename_i hst
+    have hty := is0.ty t (by rw [hst]; rfl)
     split
     · rename_i hp
       split
@@ -262,6 +284,8 @@ theorem stepRun2_K {a : ACfg} {s : St} (ib : InvB2 a s) (is : InvS a s) (t : ATi
         exact stepDisp2_K ib0 is0 hst hp
       · exact ⟨ib0, is0⟩
     · rename_i v k hp
+      rw [hp] at hty
+      obtain rfl := allowed2_D2 hty (Or.inr (Or.inl ⟨v, k, rfl⟩))
       split
       · refine ⟨InvB2.of_core (s := s0.emit2 (.msgExit v)) rfl (ib0.emit2 rfl), ?_⟩
         obtain ⟨nb, we, wv, ty, wq, d2, cc, hc', can, v2, dn, vn, da, vs⟩ := is0
@@ -270,10 +294,14 @@ theorem stepRun2_K {a : ACfg} {s : St} (ib : InvB2 a s) (is : InvS a s) (t : ATi
         obtain ⟨nb, we, wv, ty, wq, d2, cc, hc', can, v2, dn, vn, da, vs⟩ := is0
         ksolve
     · rename_i v hp
+      rw [hp] at hty
+      obtain rfl := allowed2_D2 hty (Or.inr (Or.inr (Or.inl ⟨v, rfl⟩)))
       refine ⟨InvB2.of_core (s := (s0.emit2 (.closeRet (.handler v) .ok)).emit2 (.msgExit v)) rfl ((ib0.emit2 rfl).emit2 rfl), ?_⟩
       obtain ⟨nb, we, wv, ty, wq, d2, cc, hc', can, v2, dn, vn, da, vs⟩ := is0
       ksolve
     · rename_i v k hp
+      rw [hp] at hty
+      obtain rfl := allowed2_D2 hty (Or.inr (Or.inr (Or.inr (Or.inl ⟨v, k, rfl⟩))))
       split
       · refine ⟨InvB2.of_core (s := s0.emit2 (.msgExit v)) rfl (ib0.emit2 rfl), ?_⟩
         obtain ⟨nb, we, wv, ty, wq, d2, cc, hc', can, v2, dn, vn, da, vs⟩ := is0
@@ -282,17 +310,16 @@ theorem stepRun2_K {a : ACfg} {s : St} (ib : InvB2 a s) (is : InvS a s) (t : ATi
         obtain ⟨nb, we, wv, ty, wq, d2, cc, hc', can, v2, dn, vn, da, vs⟩ := is0
         ksolve
     · rename_i v hp
+      rw [hp] at hty
+      obtain rfl := allowed2_D2 hty (Or.inr (Or.inr (Or.inr (Or.inr ⟨v, rfl⟩))))
       refine ⟨InvB2.of_core (s := (s0.emit2 (.closeRet (.handler v) .ok)).emit2 (.msgAbandon v)) rfl ((ib0.emit2 rfl).emit2 rfl), ?_⟩
       obtain ⟨nb, we, wv, ty, wq, d2, cc, hc', can, v2, dn, vn, da, vs⟩ := is0
       ksolve
     · rename_i hp
+      rw [hp] at hty
+      obtain rfl := allowed2_V2 hty
       split
       · refine ⟨InvB2.of_core (s := s0) rfl ib0, ?_⟩
-        have htV : t = .V2 := by
-          have := is0.ty t (by rw [hst]; rfl)
-          rw [hp] at this
-          cases t <;> simp_all [allowed2]
-        subst htV
         obtain ⟨nb, we, wv, ty, wq, d2, cc, hc', can, v2, dn, vn, da, vs⟩ := is0
         ksolve
       · split
@@ -301,19 +328,23 @@ theorem stepRun2_K {a : ACfg} {s : St} (ib : InvB2 a s) (is : InvS a s) (t : ATi
           obtain ⟨nb, we, wv, ty, wq, d2, cc, hc', can, v2, dn, vn, da, vs⟩ := is0
           ksolve
     · rename_i u hp
+      rw [hp] at hty
+      obtain rfl := allowed2_W hty (Or.inl rfl)
       split
       · rename_i v hv
-        refine ⟨InvB2.of_core (s := _) rfl (InvB2.emit2 (o := .ret u (.msg v)) rfl (InvB2.of_core (s' := { s0 with vres2 := none, rcv2Busy := false, gone2 := s0.gone2 ++ [(v, true)] }) (s := s0) rfl ib0)), ?_⟩
+        refine ⟨InvB2.of_core (s := ({ s0 with vres2 := none, rcv2Busy := false, gone2 := s0.gone2 ++ [(v, true)] } : St).emit2 (.ret u (.msg v))) rfl (InvB2.emit2 rfl (InvB2.of_core (s' := { s0 with vres2 := none, rcv2Busy := false, gone2 := s0.gone2 ++ [(v, true)] }) (s := s0) rfl ib0)), ?_⟩
         obtain ⟨nb, we, wv, ty, wq, d2, cc, hc', can, v2, dn, vn, da, vs⟩ := is0
         ksolve
       · split
-        · refine ⟨InvB2.of_core (s := _) rfl (InvB2.emit2 (o := .ret u .eoq) rfl (InvB2.of_core (s' := { s0 with rcv2Busy := false }) (s := s0) rfl ib0)), ?_⟩
+        · refine ⟨InvB2.of_core (s := ({ s0 with rcv2Busy := false } : St).emit2 (.ret u .eoq)) rfl (InvB2.emit2 rfl (InvB2.of_core (s' := { s0 with rcv2Busy := false }) (s := s0) rfl ib0)), ?_⟩
           obtain ⟨nb, we, wv, ty, wq, d2, cc, hc', can, v2, dn, vn, da, vs⟩ := is0
           ksolve
-        · refine ⟨InvB2.of_core (s := _) rfl (InvB2.emit2 (o := .ret u .cancelled) rfl (InvB2.of_core (s' := { s0 with rcv2Busy := false }) (s := s0) rfl ib0)), ?_⟩
+        · refine ⟨InvB2.of_core (s := ({ s0 with rcv2Busy := false } : St).emit2 (.ret u .cancelled)) rfl (InvB2.emit2 rfl (InvB2.of_core (s' := { s0 with rcv2Busy := false }) (s := s0) rfl ib0)), ?_⟩
           obtain ⟨nb, we, wv, ty, wq, d2, cc, hc', can, v2, dn, vn, da, vs⟩ := is0
           ksolve
     · rename_i u hp
+      rw [hp] at hty
+      obtain rfl := allowed2_W hty (Or.inr rfl)
       refine ⟨InvB2.of_core (s := s0.emit2 (.closeRet (.user u) .ok)) rfl (ib0.emit2 rfl), ?_⟩
       obtain ⟨nb, we, wv, ty, wq, d2, cc, hc', can, v2, dn, vn, da, vs⟩ := is0
       ksolve
